@@ -27,6 +27,8 @@ def opened {μ} (script : List (Stream μ)) (n : Nat) : List (Stream μ) :=
 `seen` = request payloads that reached the server, `seenAtCancel` = how many had when the caller cancelled -/
 def specStream {μ ρ} [DecidableEq μ] [DecidableEq ρ] (watch : Bool) (max : Nat) (cancelAfter : Option Nat)
     (script : List (Stream μ)) (req : ρ) (delivered : List μ) (seen : List ρ) (seenAtCancel : Nat) : List String :=
+  -- the caller cancels only once `n` messages arrived: a run that ended earlier was never cancelled
+  let cancelAfter := cancelAfter.filter (fun n => n ≤ delivered.length)
   let ops := opened script seen.length
   let all := ops.flatMap (·.msgs)
   (if seen.all (· == req) then [] else ["request-not-resent"]) ++
